@@ -140,6 +140,80 @@ def fresh_minimise(doc, repo, budget_s=240):
     return new
 
 
+def _ddmin_fresh(items, fails, t_end):
+    """ddmin over a list; `fails(candidate)` runs in a fresh interpreter; candidates of one round run in parallel."""
+    from concurrent.futures import ThreadPoolExecutor
+    chunk = max(1, len(items) // 2)
+    while items and chunk >= 1 and time.monotonic() < t_end:
+        cands = [(i, items[:i] + items[i + chunk:]) for i in range(0, len(items), chunk)]
+        hit = None
+        with ThreadPoolExecutor(max_workers=8) as ex:
+            futs = [(c, ex.submit(fails, c, 'p%d' % i)) for i, c in cands]
+            for c, fu in futs:
+                if hit is None and fu.result():
+                    hit = c
+        if hit is not None:
+            items = hit
+            chunk = min(chunk, max(1, len(items) // 2))
+        elif chunk == 1:
+            break
+        else:
+            chunk //= 2
+    return items
+
+
+def prefix_chance(prop, tier, batch_seed, n_runs, run_seed, out_dir, excluded, repo, budget_s=420):
+    """Third chance for a violation that depends on what EARLIER runs of the same worker process left behind in the
+    library.  The group's runs up to the failing one are re-executed in a fresh interpreter with every run recorded;
+    the replay file then carries those earlier runs as a prelude, which is minimised (whole runs first, then the ops of
+    the failing run, then the ops of each surviving prelude run), every candidate in its own fresh interpreter."""
+    jobs = make_jobs(prop, tier, batch_seed, n_runs, os.path.join(out_dir, 'prefix'), 600, excluded)
+    job = None
+    for g, hs, args in jobs:
+        seeds = [sd for _, sd in args['runs']]
+        if run_seed in seeds:
+            k = seeds.index(run_seed)
+            job = (g, hs, dict(args, runs=args['runs'][:k + 1], record_all=True))
+            break
+    if job is None:
+        return None
+    res, err = run_jobs([job], 1, repo, 900)
+    v = res[0].get('violation') if res else None
+    if not v or v['run_seed'] != run_seed:
+        return None
+    with open(v['replay']) as f:
+        doc = json.load(f)
+    ok, r0 = _fresh_fails(doc, doc['ops'], repo, 'x')
+    if not ok:
+        return None
+    t_end = time.monotonic() + budget_s
+    prelude = _ddmin_fresh(list(doc['prelude']),
+                           lambda c, tag: _fresh_fails(dict(doc, prelude=c), doc['ops'], repo, tag)[0], t_end)
+    doc = dict(doc, prelude=prelude)
+    ops = _ddmin_fresh(list(doc['ops']), lambda c, tag: bool(c) and _fresh_fails(doc, c, repo, tag)[0], t_end)
+    doc = dict(doc, ops=ops)
+    for j in range(len(prelude)):
+        def fails(c, tag, j=j):
+            pre = [dict(p_, ops=c) if i == j else p_ for i, p_ in enumerate(doc['prelude'])]
+            return _fresh_fails(dict(doc, prelude=pre), doc['ops'], repo, tag)[0]
+        pops = _ddmin_fresh(list(doc['prelude'][j]['ops']), fails, t_end)
+        doc = dict(doc, prelude=[dict(p_, ops=pops) if i == j else p_ for i, p_ in enumerate(doc['prelude'])])
+    ok, res = _fresh_fails(doc, doc['ops'], repo, 'f')
+    if not ok:
+        return None
+    doc['minimised_len'] = len(doc['ops'])
+    doc['minimised_in'] = ('fresh interpreters; the failure needs %d earlier run(s) of the same process (of %d) as a prelude: '
+                           'state kept by the library between runs is involved' % (len(doc['prelude']),
+                                                                                   doc.get('original_prelude_runs', 0)))
+    doc['expect'] = {'invariant': res['violation']['invariant'], 'step': res['violation']['step'],
+                     'message': res['violation']['message'], 'event_digest': res['event_digest']}
+    doc['invariant'] = res['violation']['invariant']
+    with open(v['replay'], 'w') as f:
+        json.dump(doc, f, indent=1)
+    return dict(v, invariant=doc['invariant'], message=doc['expect']['message'], minimised_len=len(doc['ops']),
+                prelude_runs=len(doc['prelude']))
+
+
 def run_jobs(jobs, ncpu, repo, wall_s, stop_on_violation=True):
     """jobs: list of (group, hashseed, args-dict).  Returns (results, errors)."""
     pending = list(jobs)
@@ -398,8 +472,15 @@ def cmd_check(prop, tier, repo, batch_seed, runs=None, quiet=False, wall=None, o
                         ok = True
             elif v and any(x['invariant'] == v['invariant'] for x in verified):
                 ok = True
+        if not ok and only_seed is None:
+            v3 = prefix_chance(prop, tier, batch_seed, n_runs, run_seed, out_dir, excluded, repo)
+            if v3 is not None:
+                if v3['invariant'] not in set(x['invariant'] for x in verified):
+                    verified.append(v3)
+                ok = True
         if not ok:
-            errors.append(why + ' (and the run does not fail when executed alone in a fresh interpreter)')
+            errors.append(why + ' (and the run does not fail when executed alone in a fresh interpreter, nor after '
+                          'the runs that preceded it in its worker)')
     known_lines, kviols = [], []
     try:
         known_lines, kviols = confirm_known(prop, repo)
@@ -408,8 +489,10 @@ def cmd_check(prop, tier, repo, batch_seed, runs=None, quiet=False, wall=None, o
     for line in known_lines:
         print(line)
     for v in verified:
-        print('violation: invariant=%s run_seed=%d ops %d -> %d: %s' % (
-            v['invariant'], v['run_seed'], v['original_len'], v['minimised_len'], v['message']))
+        print('violation: invariant=%s run_seed=%d ops %d -> %d%s: %s' % (
+            v['invariant'], v['run_seed'], v['original_len'], v['minimised_len'],
+            ' (after %d earlier run(s) in the same process)' % v['prelude_runs'] if v.get('prelude_runs') else '',
+            v['message']))
         print('VIOLATION property=%s replay=%s' % (prop, v['replay']))
         rc = 1
     for rp, msg in kviols:
